@@ -129,6 +129,8 @@ def run(project: Project, rep, tier: str):
                 if ok is True:
                     rep.discharged("PE-GUARD", fi, ev["node"], "a value is produced only on the path where every bar "
                                                                "length is strictly positive", derived=sym.show(cond)[:200])
+                elif ok is False and not I.clean_before(ev):
+                    rep.unmodelled("PE-GUARD", fi, ev["node"], "the guard on this path could not be followed exactly")
                 elif ok is False:
                     rep.refuted("PE-GUARD", fi, ev["node"],
                                 f"a value is produced under {sym.show(cond)[:200]} which is not 'all lengths > 0': a bar of "
